@@ -13,6 +13,7 @@
 #include "polyseed.h"
 #include <pthread.h>
 #include <sched.h>
+#include <time.h>
 #include <stdio.h>
 #include <stdlib.h>
 #include <string.h>
@@ -38,7 +39,16 @@ static void fold(const void* p, size_t n) {
 static void maybe_yield(void) { if (t_yield && (splitmix(&t_yprng) & 3) == 0) sched_yield(); }
 
 static void dep_rand(void* r, size_t n) { unsigned char* o = r; for (size_t i = 0; i < n; ++i) o[i] = (unsigned char)splitmix(&t_prng); maybe_yield(); }
+/* C04: the KDF inputs must stay what they were for as long as the KDF runs: password and salt are copied on entry and
+ * compared again after the thread has yielded a few times (a static buffer shared by concurrent calls would change) */
+static int g_kdf_unstable;
 static void dep_kdf(const uint8_t* pw, size_t pwlen, const uint8_t* salt, size_t saltlen, uint64_t it, uint8_t* key, size_t keylen) {
+    if (t_yield && pwlen <= 1024 && saltlen <= 64) {
+        uint8_t pw0[1024], salt0[64];
+        memcpy(pw0, pw, pwlen); memcpy(salt0, salt, saltlen);
+        { struct timespec ts = { 0, 300000 }; nanosleep(&ts, NULL); }   /* long enough for another thread to come by */
+        if (memcmp(pw0, pw, pwlen) != 0 || memcmp(salt0, salt, saltlen) != 0) __atomic_add_fetch(&g_kdf_unstable, 1, __ATOMIC_RELAXED);
+    }
     uint64_t h = 0xcbf29ce484222325ull;
     for (size_t i = 0; i < pwlen; ++i) { h ^= pw[i]; h *= 0x100000001b3ull; }
     for (size_t i = 0; i < saltlen; ++i) { h ^= salt[i]; h *= 0x100000001b3ull; }
@@ -136,6 +146,7 @@ int main(int argc, char** argv) {
                g_serial[i] == g_conc[i] ? "same" : "DIFFERENT");
         if (g_serial[i] != g_conc[i]) bad++;
     }
+    printf("KDF-UNSTABLE %d\n", g_kdf_unstable);
     printf("DONE threads=%d iters=%d different=%d\n", nt, g_iters, bad);
     return 0;
 }
